@@ -205,7 +205,10 @@ func (d *ds) NodeHistory(ctx context.Context, id osm.NodeID) (osm.Nodes, error) 
 	if err != nil {
 		return nil, err
 	}
-	var ns osm.Nodes
+	ns := osm.Nodes{} // empty, not nil, when there is no version
+	if id%2 == 1 {
+		ns = nil
+	}
 	for _, v := range h.Versions {
 		ns = append(ns, &osm.Node{ID: id, Version: v.Version, ChangesetID: osm.ChangesetID(v.Changeset),
 			Timestamp: v.Timestamp, Committed: cp(v.Committed), Lat: v.Lat, Lon: v.Lon, Visible: v.Visible})
@@ -254,7 +257,7 @@ func (d dsChildren) children(f osm.FeatureID) ([]*shared.Child, error) {
 	}
 	vs := append([]Hver(nil), h.Versions...)
 	sort.SliceStable(vs, func(a, b int) bool { return vs[a].Version < vs[b].Version })
-	var l []*shared.Child
+	l := make([]*shared.Child, 0, len(vs)) // an empty history is an empty NON-NIL list (rows of a query)
 	for i, v := range vs {
 		c := &shared.Child{ID: f, Version: v.Version, ChangesetID: osm.ChangesetID(v.Changeset), VersionIndex: i,
 			Timestamp: v.Timestamp, Lat: v.Lat, Lon: v.Lon, ReverseOfPrevious: v.Reverse, Visible: v.Visible}
@@ -616,6 +619,7 @@ func Generate(rng *rand.Rand, g GenOpts) *Input {
 	}
 
 	nch := 1 + rng.Intn(g.MaxChildren)
+	bigVersions := rng.Intn(8) == 0
 	var chs []*childState
 	for i := 0; i < nch; i++ {
 		var fid osm.FeatureID
@@ -680,6 +684,9 @@ func Generate(rng *rand.Rand, g GenOpts) *Input {
 		v := Hver{Timestamp: ts, Committed: com, Lat: float64(rng.Intn(180) - 90), Lon: float64(rng.Intn(360) - 180), Visible: true}
 		if len(c.vers) == 0 {
 			v.Version = 1 + rng.Intn(2)
+			if bigVersions {
+				v.Version = 65533 + rng.Intn(3) // the history crosses 65535 -> 65536 (16-bit packed ids)
+			}
 		} else {
 			v.Version = c.vers[len(c.vers)-1].Version + 1 + rng.Intn(5)/4
 			v.Flip = c.vers[len(c.vers)-1].Flip != (rng.Intn(3) == 0)
@@ -807,7 +814,7 @@ func Generate(rng *rand.Rand, g GenOpts) *Input {
 		if !g.Clean && rng.Intn(25) == 0 {
 			h.Kind = 1 + rng.Intn(2)
 		}
-		if rng.Intn(3) == 0 {
+		if rng.Intn(3) == 0 || bigVersions {
 			rng.Shuffle(len(h.Versions), func(i, j int) { h.Versions[i], h.Versions[j] = h.Versions[j], h.Versions[i] })
 		}
 		in.Hists = append(in.Hists, h)
